@@ -1217,3 +1217,38 @@ macro_rules! k_byte_reader_deliver {
 k_byte_reader_deliver!(k_byte_reader_deliver_b1_left0, Some(1u64), 0);
 k_byte_reader_deliver!(k_byte_reader_deliver_b2_left2, Some(2u64), 2);
 k_byte_reader_deliver!(k_byte_reader_deliver_b2_left0, Some(2u64), 0);
+
+// ------------------------------------------------------------------ read_subframes: the frame buffer is re-shaped for every frame (C16 / C03)
+// contract: decoding a frame into a buffer that still holds a previous frame of a different shape (here 2 channels x 2
+// samples, then 1 channel x 4 samples: same number of samples) yields exactly the second frame: shape from its header,
+// samples from its subframes — nothing of the previous frame's layout survives.
+#[kani::proof]
+#[kani::unwind(7)]
+pub(crate) fn k_frames_reuse_buffer_shape() {
+    let mut buf = Frame::default();
+    // first frame: stereo, block of 2
+    let a = [any_i64_within(16), any_i64_within(16)];
+    let b = [any_i64_within(16), any_i64_within(16)];
+    let mut t1: Tape<16> = Tape::new();
+    gen_verbatim(&mut t1, 16, &a);
+    gen_verbatim(&mut t1, 16, &b);
+    gen_frame_tail(&mut t1, 2 * 8 + 2 * 32);
+    let h1 = hdr(16, 2, ChannelAssignment::Independent(Independent::Stereo));
+    vk_assert!(read_subframes(&mut t1, &h1, &mut buf).is_ok(), "first frame decodes");
+    vk_assert!(frame_shape(&buf) == (2, 2, 16), "first frame shape");
+    // second frame: mono, block of 4, different depth
+    let c = [any_i64_within(12), any_i64_within(12), any_i64_within(12), any_i64_within(12)];
+    let mut t2: Tape<16> = Tape::new();
+    gen_verbatim(&mut t2, 12, &c);
+    gen_frame_tail(&mut t2, 8 + 4 * 12);
+    let h2 = hdr(12, 4, ChannelAssignment::Independent(Independent::Mono));
+    vk_assert!(read_subframes(&mut t2, &h2, &mut buf).is_ok(), "second frame decodes");
+    vk_assert!(frame_shape(&buf) == (1, 4, 12), "the buffer takes the shape of the frame just decoded");
+    let s = frame_samples(&buf);
+    vk_assert!(s.len() == 4, "one channel of four samples");
+    let mut i = 0;
+    while i < 4 { vk_assert!(s[i] as i64 == c[i], "samples of the second frame"); i += 1; }
+    let mut n = 0;
+    for ch in buf.channels() { vk_assert!(ch.len() == 4, "channel slices follow the new block size"); n += 1; }
+    vk_assert!(n == 1, "exactly one channel");
+}
